@@ -12,7 +12,20 @@ rotation) and compares structurally with the reference: the store's Fetch with F
 in-process search.Ingestor `| fields` pipe, and the public proxy API of a real proxyapi.Ingestor over
 sockets - Fetch (gRPC grpcV1.Fetch and the HTTP gateway /fetch), Search, ComplexSearch, Export (gRPC)
 and the HTTP gateway /search.  Non-vacuity of EntryFaithful: the sanitising hops dropblank / trim /
-split must violate it, dedupe must not (ProjectCases_<hop>.cfg)."""
+split must violate it, dedupe must not (ProjectCases_<hop>.cfg).
+
+Histories of fetches: ProjectPool.tla (INSTANCE of ProjectCases for the reference).  The store keeps the
+per-request projection state (filter, decoder, buffer) in pooled objects that outlive a request, so what
+a client gets also depends on the fetches before and beside its own.  The module interleaves NReq fetch
+requests with different filters (none / allow / except) at their stream.Send points - Start / Ok /
+Cancel (Send fails, context cancelled) / SendErr / Dead (cancelled before it starts) over a bag of pooled
+objects - and decides OwnProjection: every delivered document is ProjectCases!Returned for the request's
+OWN filter (PoolSound: an object is held by one request or pooled once).  Every finished history is
+replayed by `project -hist` on the real GrpcV1.Fetch handler: one real fetch per request on its own
+goroutine, the Send of its server stream is a gate, the driver walks the schedule (one processor, so the
+sync.Pool hands out what the history left in it).  Non-vacuity: the poolings double (cancel path
+releases twice), shared, keep (no reset), early (use after release) must violate OwnProjection
+(ProjectPool_<pooling>.cfg)."""
 import json
 import os
 import vlib
@@ -34,8 +47,44 @@ def _guards(ctx):
             vlib.require_tlc_ok(r, "ProjectCases_%s" % hop)
 
 
+def _histories(ctx, drv):
+    """ProjectPool.tla: interleaved fetch requests over the store's pooled filter objects."""
+    cf = os.path.join(ctx.scratch, "history.jsonl")
+    runs = [("ProjectPool.cfg", None)] if ctx.quick() else [("ProjectPool_3.cfg", None), ("ProjectPool_sim.cfg", "num=15000")]
+    for cfg, sim in runs:
+        r = vlib.run_tlc(ctx, "ProjectPool.tla", cfg, case_file=cf, timeout=1700, simulate=sim, depth=40 if sim else None)
+        if r.violated:
+            raise vlib.Infra("TLC: %s violated in ProjectPool.tla (%s)" % (r.violated, cfg))
+        vlib.require_tlc_ok(r, cfg)
+    for pooling in (["double", "shared"] if ctx.quick() else ["double", "shared", "keep", "early"]):
+        r = vlib.run_tlc(ctx, "ProjectPool.tla", "ProjectPool_%s.cfg" % pooling, timeout=600, quiet=True)
+        if r.violated != "OwnProjection":
+            raise vlib.Infra("ProjectPool_%s.cfg: OwnProjection should be violated by the %s pooling (got %r)" % (pooling, pooling, r.violated))
+    # a history is emitted once per choice of pooled objects: keep one line per history.  (The instance of
+    # ProjectCases makes its Emit a constant, TLC prints it once when it starts: no "hist" in that line.)
+    seen, lines = set(), []
+    with open(cf) as fh:
+        for ln in fh:
+            if ln.startswith("{") and '"hist":' in ln and ln not in seen:
+                seen.add(ln)
+                lines.append(ln)
+    if not lines:
+        raise vlib.Infra("ProjectPool.tla emitted no history")
+    with open(cf, "w") as fh:
+        fh.writelines(lines)
+    mism, summ, _ = vlib.run_cases(ctx, drv, ["-hist", "-seed", str(ctx.seed)], cf, label="history", timeout=1700, procs=4, chunk=30000)
+    for m in mism:
+        ctx.violation("history:%s" % (m.get("what") or "")[:34], m,
+                      what="a fetch of a history did not get its own projection (ProjectPool OwnProjection): " + str(m.get("what"))[:120])
+    h = json.loads(lines[(ctx.seed * 7919) % len(lines)])
+    ctx.cov["samples"].append({"hist": h["hist"], "flt": h["flt"], "exp": h["exp"]})
+    ctx.cov["histories"] = {"replayed": summ["cases"], "fetches": summ["evals"], "with_overlapping_requests": summ["nontrivial"]}
+    return summ
+
+
 def run(ctx):
     drv = vlib.build_driver("project")
+    hs = _histories(ctx, drv)
     cf = os.path.join(ctx.scratch, "project.jsonl")
     r = vlib.run_tlc(ctx, "ProjectCases.tla", "ProjectCases.cfg" if ctx.quick() else "ProjectCases_3.cfg", case_file=cf, timeout=3400)
     if r.violated:
@@ -63,9 +112,9 @@ def run(ctx):
     for i in range(9, len(keyed), 2503):
         if len(ctx.cov["samples"]) < 4:
             ctx.cov["samples"].append(json.loads(keyed[(i * 7919) % len(keyed)][3]))
-    ctx.cov["traces_validated_against_impl"] = summ["cases"]
-    ctx.cov["evaluations"] = summ["evals"]
-    ctx.cov["distinct_nontrivial"] = summ["nontrivial"]
+    ctx.cov["traces_validated_against_impl"] = summ["cases"] + hs["cases"]
+    ctx.cov["evaluations"] = summ["evals"] + hs["evals"]
+    ctx.cov["distinct_nontrivial"] = summ["nontrivial"] + hs["nontrivial"]
     ctx.cov["exhaustive"] = True
     ctx.cov["cases_per_universe"] = per_u
     ctx.cov["rule"] = ("case = (universe of field names, field-name sets of MaxDocs documents, field list of 0..3 names over the universe + a missing name "
@@ -75,7 +124,14 @@ def run(ctx):
                        "forms, nested containers also with blank keys, null/bool/empty) rotated by VERIF_SEED; keys spelled with JSON escapes, pipe keywords in "
                        "three cases, names bare / quoted in the grammar's quoting styles; eight paths (store fetch filter, in-process pipe, proxy API Fetch over "
                        "gRPC and HTTP gateway, proxy API Search / ComplexSearch / Export over gRPC, HTTP gateway search) incl. same ids/order and untouched "
-                       "bytes without a filter; non-trivial = some document keeps a proper non-empty subset of its fields")
+                       "bytes without a filter; non-trivial = some document keeps a proper non-empty subset of its fields.  "
+                       "history = interleaving of 3 (thorough also: 4, sampled) fetch requests with pairwise different filters (none / allow / except) "
+                       "at their Send points, requests ending normally, by a cancelled client at any document, by a transport error at any document or "
+                       "cancelled before they start (quick: at most one abnormal end per history, thorough: any number), all interleavings up to the "
+                       "order in which interchangeable requests start; replayed on the real GrpcV1.Fetch handler with gated streams, 3 stored variants of "
+                       "the corpus, \"no filter\" spelled as absent message / empty list; non-trivial history = two requests in flight at the same time")
     ctx.assumptions += ["JSON values are compared structurally, numbers by value (re-encoding may change member order / number spelling; the HTTP gateway "
                         "re-encodes documents as JSON inside its own JSON response)",
-                        "top-level fields only (as the property states); no document has the same key twice"]
+                        "top-level fields only (as the property states); no document has the same key twice",
+                        "histories interleave the fetch handlers at stream.Send only (one handler runs at a time, one processor): data races inside "
+                        "a shared decoder under real parallelism are not explored"]
